@@ -21,7 +21,7 @@ a = ap.parse_args()
 src = a.src or f"/tmp/wt/out/{a.prop}"
 diff = os.path.join(src, f"{a.letter}.diff")
 demo = os.path.join(src, f"{a.letter}_demo.py")
-notes = os.path.join(src, {"C": "NOTES2.md", "D": "NOTES2.md", "E": "NOTES3.md", "F": "NOTES3.md", "G": "NOTES4.md", "H": "NOTES4.md"}.get(a.letter, "NOTES.md"))
+notes = os.path.join(src, {"C": "NOTES2.md", "D": "NOTES2.md", "E": "NOTES3.md", "F": "NOTES3.md", "G": "NOTES4.md", "H": "NOTES4.md", "I": "NOTES5.md", "J": "NOTES5.md"}.get(a.letter, "NOTES.md"))
 checks = (a.checks or a.prop).split(",")
 wt = f"/tmp/wt/eval-{a.prop}-{a.letter}-{os.getpid()}"
 meta = {"property": a.prop, "id": f"{a.prop}-{a.letter}", "checks_run": {}, "tier": a.tier, "mode": a.mode}
